@@ -6,8 +6,8 @@ import (
 	"time"
 
 	"github.com/go-logr/logr"
-	k8sjson "k8s.io/apimachinery/pkg/util/json"
 	metav1 "k8s.io/apimachinery/pkg/apis/meta/v1"
+	k8sjson "k8s.io/apimachinery/pkg/util/json"
 
 	"metacontroller/pkg/apis/metacontroller/v1alpha1"
 	"metacontroller/pkg/controller/common"
@@ -16,7 +16,6 @@ import (
 	"metacontroller/pkg/internal/verif/sim"
 	"metacontroller/pkg/internal/verif/world"
 )
-
 
 type cworld struct {
 	*world.Base
@@ -149,7 +148,6 @@ func parentKey(ns, name string) string {
 	}
 	return ns + "/" + name
 }
-
 
 func jsonUnmarshal(b []byte, v *kit.M) error {
 	m := map[string]interface{}{}
